@@ -125,4 +125,6 @@ def build(E):
     # fingerprint provenance: which certificate, and which function of it (contracts/cert_funcs.py)
     from contracts import cert_funcs
     cert_funcs.add_targets(E, spec, "C04", which=("fingerprint", "peer"))
+    from contracts.server_events import no_falsy_middleware
+    spec.syntactic.append(("[C04] a configured middleware is always consulted: no middleware class can be falsy (the protocol tests 'if self.middleware:')", no_falsy_middleware))
     return spec
